@@ -109,7 +109,26 @@ def _run(g, b, tys, tiny, probes, st):
     return out
 
 
+def _real_interval(case):
+    """a TimeInterval on decimal times (real doubles) with a decimal time buffer: ends of input and result, exactly"""
+    from soundevent import data
+    s, e, b = float(case["start"]), float(case["end"]), float(case["buf"])
+    out = {"raised": "", "type": "", "ins": limbs(s), "ine": limbs(e), "rs": limbs(0.0), "re": limbs(0.0),
+           "hin": [s.hex(), e.hex()], "hout": []}
+    try:
+        r = buffer_geometry(data.TimeInterval(coordinates=[s, e]), time_buffer=b)
+    except Exception as ex:
+        return dict(out, raised=type(ex).__name__)
+    out["type"] = str(r.type)
+    if r.type == "TimeInterval":
+        rs, re_ = float(r.coordinates[0]), float(r.coordinates[1])
+        out.update(rs=limbs(rs), re=limbs(re_), hout=[rs.hex(), re_.hex()])
+    return out
+
+
 def execute(case):
+    if case.get("real"):
+        return _real_interval(case)
     st = SUB_T[case["u"] - 1]
     g = build(case["g"], st, SUB_F)
     probes = [(p[0] * st, p[1] * SUB_F) for p in case["probes"]]
@@ -274,6 +293,8 @@ def finding_key(obs, clause):
     """BoundsGrowRoundStrict fails (TLA+: some bound of a buffered line string misses the exact target) while the tolerant
     clause BoundsGrowRound (TLA+: shortfall beyond 1/207 of the buffer) is a separate reject that keeps its own name:
     only a shortfall within the inscribed-32-gon bound is the known finding F16."""
+    if obs["in"].get("real"):
+        return clause
     if clause == "BoundsGrowRoundStrict" and obs["in"]["g"]["type"] in ("LineString", "MultiLineString"):
         return "BoundsGrowRound/deficit<=1-cos(pi/32)"
     # a line string that folds back (Buffer!Folded, decided in TLA+) misses even the tolerant target at the tip of the fold
@@ -295,6 +316,8 @@ def finding_key(obs, clause):
 
 
 def nontrivial(o):
+    if o["in"].get("real"):
+        return o["in"]["buf"] != "0"
     b1, b2 = o["in"]["b1"], o["in"]["b2"]
     tiny = [n for n in o["in"].get("e1", []) + o["in"].get("e2", []) if n and n != "-0.0"]
     return min(b1 + b2) >= 0 and max(b1 + b2) > 0 and not tiny
